@@ -13,9 +13,11 @@ SYS = ['ty', 'qk', 'sh', 'bg', 'hu']
 
 
 def athlon_work(chunk):
-    key, lo, hi, age = chunk
+    key, lo, hi, age = chunk[:4]
     G = c01.setup()
     g, e = key
+    if len(chunk) > 4:
+        g, e = chunk[4]          # a letter-case spelling of the same row
     score = G['score']
     timed = c01.kind_of(G, G['rows'][key]['ev']) == 'timed'
     acc = Acc()
@@ -74,6 +76,22 @@ def run(tier):
             for a, b in common.split_range(0, top + 1, n):
                 chunks.append((k, max(0, a - 1), b - 1, age))
     merge(rep, pmap(athlon_work, chunks), part='combined events (ages %r)' % (ages,))
+    # letter-case spellings of the same rows on the whole grid (no age, and one band)
+    chunks2 = []
+    for k in sorted(G['rows']):
+        if k in c01.ALIASES:
+            continue
+        hi = c01.grid_hi(G, k)
+        for sp in ((k[0].lower(), k[1].lower()), (k[0], k[1].capitalize())):
+            if sp == k:
+                continue
+            for age in (None, 50):
+                if age is not None and c01.wma_factor(G, k[0], k[1], age) is None:
+                    continue
+                step = max(1, (hi + 1) // 20000)
+                for a, b in common.split_range(0, hi + 1, step):
+                    chunks2.append((k, max(0, a - 1), b - 1, age, sp))
+    merge(rep, pmap(athlon_work, chunks2), part='combined events, letter-case spellings of gender / event')
     c = rep.coverage
     c['jobs'] = len(jobs) + len(chunks)
     c['rule'] = ('all adjacent pairs of marks on the 0.01 grid for every table/event/gender/age of each scoring system, per input form; results int and '
